@@ -68,7 +68,7 @@ func (c *byteChooser) Int(lo, hi int, _ string) int {
 	return lo + v%span
 }
 
-var allExclusions = []string{exDelBal, exHollow, exCodeMarker}
+var allExclusions = []string{exDelBal, exHollow, exCodeMarker, exStale}
 
 // newExclusions activates the exclusions named in VERIF_EXCLUDE (known findings).
 func newExclusions(h *run.H) *exclusions {
